@@ -882,3 +882,262 @@ def distribution(cases, results):
                 if v:
                     d['Next count ' + v] = d.get('Next count ' + v, 0) + 1
     return d
+
+
+# =====================================================================================================================
+# ADDITION (memoobj): memoisation over MUTABLE argument objects - model coq/Determ/ModelMemo.v, proofs Determ/ProofsMemo.v.
+# Everything above is unchanged; the functions of the harness interface are wrapped so that the new case kind 'memoobj' is
+# generated after, and handled apart from, the existing kinds.
+#
+# A case is a program over 1-3 calibration objects (Flat / Interp / Point, different 1 kHz sensitivities and gains):
+#   ['new', cls, sens, gain]                 a calibration                                  model: NewObj (gain - sens)
+#   ['set', oid, gain, how]                  cal.set_fixed_gain(g) / cal.fixed_gain = g            SetState oid (gain - sens_oid)
+#   ['call', file, norm, level, oid|None]    stim.load_wav(FS, wav, level, cal, norm)              Call 0 [file+1; norm; level; Ref oid]
+#   ['mkfactory', file, norm, level, oid]    f = stim.WavFileFactory(FS, wav, level, cal, norm)    (nothing: the property is lazy)
+#   ['waveform', fid]                        f.waveform, possibly long after the factory was made  Call 0 [...the factory's arguments...]
+# Each call is summarised by the scaling it applied to the file (dB, an integer by construction) and by WHICH array object it
+# returned (index of the first call of the program that returned the very same object); both are compared with the
+# key_by_value model.  Oracle: each call's array equals a fresh un-memoised computation for a FRESH calibration object with the
+# same parameters and the same current gain.
+REQUIRES = REQUIRES + ['Determ.ModelMemo']
+RULE += (' (3) memoobj: random and hand-written programs over 1-3 calibration objects (FlatCalibration / InterpCalibration / PointCalibration, '
+         'different sensitivities and gains) interleaving set_fixed_gain(g) / .fixed_gain = g with stim.load_wav(...) and (long-lived) '
+         'stim.WavFileFactory(...).waveform on two tiny wav files, three normalisations, several levels, with and without calibration: the '
+         'scaling applied by every call and the identity of the array object it returns are compared with the key_by_value model '
+         '(coq/Determ/ModelMemo.v wav_out), and every returned array must equal the un-memoised computation for a fresh calibration '
+         'with the same parameters.')
+TRUSTED = TRUSTED + ['harness/C10.py memoobj: state of a calibration as seen by load_wav = fixed_gain - sensitivity(1 kHz) (integers), '
+                     'scaling read off the returned array as 20*log10(result / unscaled file)']
+ASSUMPTIONS = ASSUMPTIONS + ['memoobj: a calibration changes only through set_fixed_gain / assignment to .fixed_gain (the sensitivity table of an '
+                             'InterpCalibration is fixed at construction)']
+
+_MO_NORMS = [None, 'pe', 'rms']
+_MO_WAVS = [21, 13]
+_MO_CLASSES = ['flat', 'interp', 'point']
+
+
+def _mo_cal(cls, sens, gain):
+    from psiaudio import calibration as C
+    if cls == 'flat':
+        return C.FlatCalibration(float(sens), fixed_gain=gain)
+    if cls == 'interp':
+        # 1 kHz is the lower knot of the only segment: the interpolated sensitivity is exactly `sens`
+        return C.InterpCalibration([1000.0, 4000.0], [float(sens), float(sens) + 7.0], fixed_gain=gain)
+    return C.PointCalibration([500.0, 1000.0], [float(sens) - 4.0, float(sens)], fixed_gain=gain)
+
+
+def _mo_random_prog(rng):
+    prog, cals, used, facs = [], [], set(), []
+    ncal = rng.randint(1, 3)
+
+    def new():
+        prog.append(['new', rng.choice(_MO_CLASSES), rng.choice([0, 0, 3, -2]), rng.randint(-3, 3)])
+        cals.append(prog[-1])
+    new()
+    for _ in range(rng.randint(5, 16)):
+        u = rng.random()
+        if u < 0.1 and len(cals) < ncal:
+            new()
+        elif u < 0.35:
+            # mostly objects that were already used (the interesting case), values close together so that equal scalings recur
+            pool = [o for o in range(len(cals)) if o in used] or list(range(len(cals)))
+            oid = rng.choice(pool if rng.random() < 0.8 else list(range(len(cals))))
+            g = rng.randint(-3, 3)
+            prog.append(['set', oid, rng.choice([g, float(g)]), rng.choice(['call', 'attr'])])
+        elif u < 0.75:
+            oid = None if rng.random() < 0.12 else rng.randrange(len(cals))
+            prog.append(['call', rng.randint(0, 1) if rng.random() < 0.3 else 0, rng.choice([0, 1, 1, 2]),
+                         None if oid is None else rng.randint(-2, 2), oid])
+            if oid is not None:
+                used.add(oid)
+        elif u < 0.85 or not facs:
+            oid = rng.randrange(len(cals))
+            prog.append(['mkfactory', 0, rng.choice([1, 1, 2]), rng.randint(-2, 2), oid])
+            facs.append(oid)
+        else:
+            fid = rng.randrange(len(facs))
+            prog.append(['waveform', fid])
+            used.add(facs[fid])
+    return prog
+
+
+_MO_HAND = [
+    # the witness of C10_memo_by_identity_refuted: same object, gain changed between two calls
+    [['new', 'flat', 0, 0], ['call', 0, 1, 5, 0], ['set', 0, 1, 'call'], ['call', 0, 1, 5, 0]],
+    [['new', 'interp', 3, 0], ['call', 0, 1, 2, 0], ['set', 0, 2, 'attr'], ['call', 0, 1, 2, 0], ['set', 0, 0, 'call'], ['call', 0, 1, 2, 0]],
+    [['new', 'point', -2, 1], ['call', 0, 2, 0, 0], ['set', 0, -1.0, 'call'], ['call', 0, 2, 0, 0]],
+    # a WavFileFactory made before the gain changes, read before and after
+    [['new', 'flat', 0, 0], ['mkfactory', 0, 1, 0, 0], ['waveform', 0], ['set', 0, 3, 'call'], ['waveform', 0], ['call', 0, 1, 0, 0],
+     ['set', 0, 0, 'attr'], ['waveform', 0]],
+    # two objects with equal values share one entry; a level change that cancels a gain change is the same scaling
+    [['new', 'flat', 0, 2], ['new', 'interp', 3, 5], ['call', 0, 1, 1, 0], ['call', 0, 1, 1, 1], ['set', 1, 4, 'call'], ['call', 0, 1, 2, 1],
+     ['call', 0, 1, 1, 1], ['call', 0, 1, None, None], ['call', 0, 1, None, None]],
+    # the other wav file, no normalisation, gain set before first use (harmless under either discipline)
+    [['new', 'point', 0, 0], ['set', 0, 2, 'attr'], ['call', 1, 0, 1, 0], ['call', 1, 0, 1, 0], ['call', 0, 0, 1, 0]],
+]
+
+
+def _mo_model_prog(prog, factory_fun=0):
+    """the program as coq/Determ/ModelMemo.v sees it.  factory_fun: the memo table WavFileFactory.waveform ends up in - the same as
+    load_wav's in the repaired code (both call _load_wav positionally); before the repair the property passed normalization= by keyword,
+    which fast_cache keeps apart from the positional form (pass 1 to compare that code with wav_out_identity)"""
+    ops, sens, facs = [], [], []
+    for o in prog:
+        if o[0] == 'new':
+            sens.append(o[2])
+            ops.append(f'NewObj {zlit(int(o[3]) - o[2])}')
+        elif o[0] == 'set':
+            ops.append(f'SetState {zlit(o[1])} {zlit(int(o[2]) - sens[o[1]])}')
+        elif o[0] == 'mkfactory':
+            facs.append(o)
+        else:
+            c = o if o[0] == 'call' else facs[o[1]]
+            _, file, norm, level, oid = c
+            fun = 0 if o[0] == 'call' else factory_fun
+            if oid is None:
+                ops.append(f'Call {fun} [AVal {zlit(file + 1)}; AVal {zlit(norm)}]')
+            else:
+                ops.append(f'Call {fun} [AVal {zlit(file + 1)}; AVal {zlit(norm)}; AVal {zlit(level)}; ARef {zlit(oid)}]')
+    return ops
+
+
+def _mo_fresh(stim, path, norm, level, calp):
+    """the function of the argument VALUES, computed without any memo table for a calibration object nobody has seen"""
+    fresh = None if calp is None else _mo_cal(*calp)
+    if hasattr(stim, '_load_wav'):
+        sf = None if fresh is None else np.float64(fresh.get_sf(1e3, level))
+        return np.array(_unwrap(stim._load_wav)(FS, path, sf, norm))
+    return np.array(_unwrap(stim.load_wav)(FS, path, level, fresh, norm))       # trees where load_wav itself carries the memo table
+
+
+def _memoobj_case(prog):
+    import logging
+    import stimcore
+    from psiaudio import stim
+    logging.getLogger('psiaudio.stim').setLevel(logging.ERROR)      # the un-memoised loader logs a warning per call
+    cals, params, facs, facp, out, held, fail = [], [], [], [], [], [], None
+    for i, o in enumerate(prog):
+        if o[0] == 'new':
+            cals.append(_mo_cal(o[1], o[2], o[3]))
+            params.append([o[1], o[2], o[3]])
+            out.append(['nothing'])
+        elif o[0] == 'set':
+            if o[3] == 'call':
+                cals[o[1]].set_fixed_gain(o[2])
+            else:
+                cals[o[1]].fixed_gain = o[2]
+            params[o[1]][2] = o[2]
+            out.append(['nothing'])
+        elif o[0] == 'mkfactory':
+            _, file, norm, level, oid = o
+            facs.append(stim.WavFileFactory(FS, stimcore._wav_path(_MO_WAVS[file], FS), level, cals[oid], _MO_NORMS[norm]))
+            facp.append(o)
+        else:
+            if o[0] == 'call':
+                _, file, norm, level, oid = o
+                path = stimcore._wav_path(_MO_WAVS[file], FS)
+                a = stim.load_wav(FS, path, level, None if oid is None else cals[oid], _MO_NORMS[norm])
+            else:
+                _, file, norm, level, oid = facp[o[1]]
+                path = stimcore._wav_path(_MO_WAVS[file], FS)
+                a = facs[o[1]].waveform
+            want = _mo_fresh(stim, path, _MO_NORMS[norm], level, None if oid is None else tuple(params[oid]))
+            plain = _mo_fresh(stim, path, _MO_NORMS[norm], None, None)
+            j = int(np.argmax(np.abs(plain)))
+            ratio = float(a[j]) / float(plain[j]) if np.shape(a) == np.shape(plain) else float('nan')
+            db = 20 * np.log10(ratio) if ratio > 0 else float('nan')
+            dbi = int(round(db)) if np.isfinite(db) and abs(db - round(db)) < 1e-3 else None
+            same = next((k for k, h in enumerate(held) if h is a), len(held))
+            held.append(a)
+            out.append(['res', file, norm, dbi, same, oid is not None])
+            if fail is None and not (np.shape(a) == np.shape(want) and np.array_equal(np.asarray(a), want)):
+                g = None if oid is None else params[oid]
+                fail = (f'op {i} {o}: load_wav / WavFileFactory.waveform with level {level} and calibration {g} (class, sensitivity, CURRENT gain) '
+                        f'returned the file scaled by {dbi if dbi is not None else db} dB, but the function of these argument values scales it by '
+                        f'{None if oid is None else level - g[1] + g[2]} dB (first samples {np.asarray(a)[:4]} vs {want[:4]}): the result depends on what was '
+                        f'done with the calibration object before; program {prog}')
+    return {'out': out, 'fail': fail}
+
+
+def _mo_agree(case, res, mo):
+    if mo[-1] != 1:
+        return 'the executable form of C10_memo_by_value_pure is false on this program'
+    mo = mo[:-1]
+    out = res['out']
+    if len(mo) != 3 * len(out):
+        return f'model has {len(mo) // 3} observations, implementation {len(out)}'
+    first, ncall = {}, 0
+    for n, r in enumerate(out):
+        code, val, sid = mo[3 * n: 3 * n + 3]
+        if r[0] == 'nothing':
+            if code != 3:
+                return f'observation {n}: implementation returned nothing, model code {code}'
+            continue
+        if code != 1:
+            return f'observation {n}: implementation returned an array, model code {code}'
+        file, rest = divmod(val, 1000000)
+        norm, s = divmod(rest, 10000)
+        scaled = s != 9999
+        want = ['res', file - 1, norm, (s - 5000) if scaled else 0, first.setdefault(sid, ncall), scaled]
+        ncall += 1
+        if r != want:
+            return (f'observation {n}: implementation {r}, key_by_value model {want} '
+                    '(file, normalisation, scaling in dB, first call returning the same array object, calibrated)')
+    return None
+
+
+def _mo_stale_risk(prog):
+    """the program mutates a calibration after it was used as an argument (where key_by_identity goes wrong)"""
+    used, facs = set(), []
+    for o in prog:
+        if o[0] == 'call' and o[4] is not None:
+            used.add(o[4])
+        elif o[0] == 'mkfactory':
+            facs.append(o[4])
+        elif o[0] == 'waveform':
+            used.add(facs[o[1]])
+        elif o[0] == 'set' and o[1] in used:
+            return True
+    return False
+
+
+_cases0, _impl0, _expr0, _agree0, _nontrivial0, _distribution0 = cases, impl, expr, agree, nontrivial, distribution
+
+
+def cases(tier, rng):
+    yield from _cases0(tier, rng)
+    for p in _MO_HAND:
+        yield {'k': 'memoobj', 'prog': p}
+    for _ in range(54 if tier == 'quick' else 900):
+        yield {'k': 'memoobj', 'prog': _mo_random_prog(rng)}
+
+
+def impl(case):
+    return _memoobj_case(case['prog']) if case['k'] == 'memoobj' else _impl0(case)
+
+
+def expr(case, res):
+    if case['k'] == 'memoobj':
+        return f"(wav_out {listlit(_mo_model_prog(case['prog']))})"
+    return _expr0(case, res)
+
+
+def agree(case, res, mo):
+    return _mo_agree(case, res, mo) if case['k'] == 'memoobj' else _agree0(case, res, mo)
+
+
+def nontrivial(case, res):
+    return _mo_stale_risk(case['prog']) if case['k'] == 'memoobj' else _nontrivial0(case, res)
+
+
+def distribution(cases, results):
+    d = _distribution0(cases, results)
+    for c in cases:
+        if c['k'] == 'memoobj':
+            for o in c['prog']:
+                kk = 'memoobj ' + o[0] + (f' {o[1]}' if o[0] == 'new' else f' {o[3]}' if o[0] == 'set' else '')
+                d[kk] = d.get(kk, 0) + 1
+            if _mo_stale_risk(c['prog']):
+                d['memoobj programs mutating a used calibration'] = d.get('memoobj programs mutating a used calibration', 0) + 1
+    return d
+# ================================================= end of the memoobj addition =========================================
